@@ -3,7 +3,7 @@ ServerImplOld (the code before the fix) must violate them (model sensitivity reg
 from common import MachineryError, run_tlc
 
 INV = ("INVARIANT Serialised\nINVARIANT OneServed\nINVARIANT AckDurable\nINVARIANT WellFormed\nINVARIANT SnapFresh\n"
-       "INVARIANT RegIsServed\nPROPERTY NoRollback\nPROPERTY WriteOnce\n")
+       "INVARIANT RegIsServed\nPROPERTY NoRollback\nPROPERTY WriteOnce\nPROPERTY RefinesServerSM\n")
 
 
 def cfg(conn, maxsend, req, body, spec="Spec"):
